@@ -389,6 +389,16 @@ def gen_case(case, res):
                 res.transitions += 1
                 check_predictor(res, case, q, [chosen[i] for i in rows], dict(sub0, rows=list(rows)), "subset")
                 res.hits["row subsets"] += 1
+            # a subset is a set: the same rows selected in another order (reversed, rotated, p[::-1]) predict the same
+            for rows, how in (((3, 1, 2, 0), "list"), ((2, 0), "list"), ((1, 3, 0), "list"), ((3, 2, 1, 0), "p[::-1]")):
+                try:
+                    q = p[::-1] if how == "p[::-1]" else p[list(rows)]
+                except Exception as ex:
+                    res.violation("subset|raised", f"p[{list(rows)}]: {type(ex).__name__}: {ex}", case, dict(sub0, rows=list(rows)))
+                    continue
+                res.transitions += 1
+                check_predictor(res, case, q, [chosen[i] for i in sorted(rows)], dict(sub0, rows=list(rows), how=how), "subset (unordered selection)")
+                res.hits["rows selected in another order"] += 1
     res.sample({"cfg": case["cfg"], "scheme": scheme, "text_head": slots[0].text().splitlines()[:2]}, 1)
 
 
@@ -456,7 +466,7 @@ def main(argv=None):
     return report.run_check(
         PID, gen_cases=gen_cases, check_case=check_case, describe=describe,
         required_hits=["spans merged", "several disjoint intervals", "unsorted array across entries", "outside rejected",
-                       "phasepol", "history: predictions re-checked after phasepol", "time_at", "time_at with a guess in another entry", "row subsets",
+                       "phasepol", "history: predictions re-checked after phasepol", "time_at", "time_at with a guess in another entry", "row subsets", "rows selected in another order",
                        "coefficient count not a multiple of three", "D exponents", "shipped file", "mixed entries rejected", "other time scales"],
         assumptions=["decimal strings of the text are the exact inputs; time is the exact (jd1, jd2) of the Time object; budget "
                      "1e-8 cycle + F0*86400*2^-51", "times inside a < 1 ms gap between spans and exactly on a span end are "
